@@ -62,7 +62,11 @@ def ok_seq(seq, kind):
             while j < len(seq) and seq[j][0].isspace():
                 j += 1
             if j < len(seq) and seq[j][2] in ('bracket', 'group'):
-                return False                    # a bracket/group (directly or after blanks) after a command: outside the statement (R2)
+                # a bracket/group in argument position (directly or after blanks) is outside the statement (R2) ...
+                if a[2] == 'cmd' and j > i + 1 and seq[j][2] == 'bracket':
+                    continue                    # ... except a bracket separated by blanks from a command that already
+                    #                               has its brace argument: no bracket group can attach there (C09)
+                return False
     return True
 
 
